@@ -243,7 +243,8 @@ type c08Case struct {
 	Case     int       `json:"case"`
 	Seed     uint64    `json:"seed"`
 	Dual     bool      `json:"dual"`
-	QEvents  bool      `json:"query_events,omitempty"` // the caller's context is registered for query events
+	QEvents  bool      `json:"query_events,omitempty"`        // the caller's context is registered for query events
+	SelfProv bool      `json:"self_is_a_pool_peer,omitempty"` // the searching node is the last peer of the pool: responders may name it as a provider
 	Count    int       `json:"count"`
 	Shuffle  int       `json:"shuffle"` // 0 identity, 1 reverse, 2 rotate left by one
 	K        int       `json:"k"`
@@ -308,7 +309,13 @@ func c08Gen(r *vfRand, idx int) *c08Case {
 	for i := range c.pool {
 		c.pool[i] = c08PeerID(r)
 	}
-	entry := func() c08Entry { return c08Entry{P: 1 + r.Intn(nPool), A: r.Chance(60)} }
+	c.SelfProv = r.Chance(25)
+	entry := func() c08Entry {
+		if c.SelfProv && r.Chance(25) {
+			return c08Entry{P: nPool, A: r.Chance(60)} // the searcher itself, e.g. its own announcement outlived its local record
+		}
+		return c08Entry{P: 1 + r.Intn(nPool), A: r.Chance(60)}
+	}
 	nSides := 1
 	if c.Dual {
 		nSides = 2
@@ -461,6 +468,9 @@ func c08Run(t *testing.T, r *vfRand, c *c08Case) {
 		}
 		stores = append(stores, ps)
 		id := c08PeerID(r)
+		if c.SelfProv {
+			id = c.pool[len(c.pool)-1] // a provider-only slot of the pool: never queried, but named in answers
+		}
 		h := &c08Host{id: id, ps: ps, bus: eventbus.NewBus(), net: &c08Net{self: id, ps: ps}, addrs: []ma.Multiaddr{c08Addr}}
 		sender := &c08Sender{side: s, gate: gate, reply: reply}
 		d, err := dht.New(h, dht.Mode(dht.ModeClient), dht.DisableAutoRefresh(), dht.VerifC08DisableFixLowPeers(),
